@@ -208,7 +208,17 @@ func genOpPlain(r *rand.Rand, m *model.Client, w opWeights, salt int) adapt.Op {
 									c.NonKey = []string{"v", "h"}
 								}
 							}
-							return adapt.Op{Kind: adapt.OpUpdateTable, Table: name, Chg: []adapt.IndexChange{{Create: &c}}, NoDefs: r.Intn(3) == 0}
+							chg := []adapt.IndexChange{{Create: &c}}
+							if r.Intn(3) == 0 {
+								// two or three indexes created by ONE request: each of them is filled from the items the table holds
+								for _, c2 := range cands {
+									if !have[c2.Name] && c2.Name != c.Name && len(chg) < 3 {
+										cc := c2
+										chg = append(chg, adapt.IndexChange{Create: &cc})
+									}
+								}
+							}
+							return adapt.Op{Kind: adapt.OpUpdateTable, Table: name, Chg: chg, NoDefs: len(chg) == 1 && r.Intn(3) == 0}
 						}
 					}
 				}
